@@ -82,12 +82,15 @@ Fixpoint usage_lookup (l : list (dop * N * list rpt)) (op : dop) (id : N) : list
   end.
 Definition usage (e : env) (op : dop) (id : N) : list rpt := usage_lookup (e_usage e) op id.
 
-(* create: scripted failure, or the rule exists already (NLM_F_EXCL) -> error; update / query: scripted
+(* create: scripted failure (leaving nothing, or - residue - the rule), or the rule exists already (NLM_F_EXCL) -> error; update / query: scripted
    failure or rule absent -> error; remove: absent -> error (removal is not in the fault model) *)
 Definition dp_call (e : env) (dp : dplane) (op : dop) (k : kind) (seid id : N) : dplane * bool :=
   let present := dp_has dp (seid, k, id) in
   match op with
-  | DCreate => if fails e op k id then (dp, false)
+  | DCreate => if fails e op k id
+               then (* a failing installation may leave the rule behind: scripted by a (DRemove, k, id) entry of the
+                       failure set (removal itself is not in the fault model, so that entry has no other meaning) *)
+                    (if fails e DRemove k id && negb present then dp_add dp (seid, k, id) else dp, false)
                else if present then (dp, false) else (dp_add dp (seid, k, id), true)
   | DUpdate | DQuery => if fails e op k id then (dp, false) else (dp, present)
   | DRemove => if present then (dp_del dp (seid, k, id), true) else (dp, false)
@@ -628,6 +631,10 @@ Inductive report_item :=
 
 Inductive event :=
 | EvRecv (peer seq : N) (m : msg) (e : env)
+| EvRecvAbort (peer seq : N) (m : msg) (e : env)
+    (* a request whose handler PANICKED (an IE accessor of the dependency reading past a malformed IE) right after the
+       operations listed in m had run; contained since fix 242a7e8: the dispatcher recovers, logs and drops the
+       message - what the handler had done so far stays, nothing is emitted, nothing is answered *)
 | EvReport (seid : N) (items : list report_item) (e : env)
 | EvTimeoutTx (peer seq : N)
 | EvTimeoutRx (peer seq : N).
@@ -768,6 +775,55 @@ Definition handle_mod (w : world) (peer seq seid : N) (nid : ie_val N) (o : ops)
     end
   end.
 
+(* the two handlers that decode rule IEs, aborted after the operations of o (session.go: the session object is
+   modified in place, so the partial state is the state; the usage reports collected so far are dropped) *)
+Definition handle_est_abort (w : world) (nid fseid : ie_val N) (o : ops) (e : env) : res (world * list out) :=
+  match nid with
+  | IeAbsent | IeBad => Ok (w, [])
+  | IeVal id =>
+    match alookup id (w_rnodes w) with
+    | None => Ok (w, [])
+    | Some ref =>
+      match fseid with
+      | IeAbsent | IeBad => Ok (w, [])
+      | IeVal rid =>
+        match new_sess w rid ref with
+        | Fault f => Fault f
+        | Ok (w1, s) =>
+          let w2 := set_heap (node_upd ref (fun n => mkNode (n_id n) (n_addr n) (addN (s_lid s) (n_sess n))) (w_heap w1)) w1 in
+          match run_categories e o est_order (mkCtx s (w_dp w2) []) with
+          | None => Ok (w, [])
+          | Some (c, _) =>
+            match put_slot (set_dp (c_dp c) w2) (c_s c) with
+            | Fault f => Fault f
+            | Ok w3 => Ok (w3, c_out c)
+            end
+          end
+        end
+      end
+    end
+  end.
+
+Definition handle_mod_abort (w : world) (seid : N) (nid : ie_val N) (o : ops) (e : env) : res (world * list out) :=
+  match lookup (w_slots w) seid with
+  | Fault f => Fault f
+  | Ok NotFound => Ok (w, [])
+  | Ok (Found s) =>
+    match nid with
+    | IeBad => Ok (w, [])
+    | _ =>
+      let w1 := match nid with IeVal id => update_node_id w (s_node s) id | _ => w end in
+      match run_categories e o mod_order (mkCtx s (w_dp w1) []) with
+      | None => Ok (w, [])
+      | Some (c, _) =>
+        match put_slot (set_dp (c_dp c) w1) (c_s c) with
+        | Fault f => Fault f
+        | Ok w2 => Ok (w2, c_out c)
+        end
+      end
+    end
+  end.
+
 Definition handle_del (w : world) (peer seq seid : N) (e : env) : res (world * list out) :=
   match lookup (w_slots w) seid with
   | Fault f => Fault f
@@ -815,6 +871,21 @@ Definition recv_request (w : world) (peer seq : N) (m : msg) (e : env) : res (wo
     | MEst nid fseid o => handle_est w0 peer seq nid fseid o e
     | MMod seid nid o => handle_mod w0 peer seq seid nid o e
     | MDel seid => handle_del w0 peer seq seid e
+    | _ => Ok (w0, [])
+    end
+  end.
+
+(* the same branch when the dispatched handler panics: the receive transaction exists (created before the dispatch) and
+   never gets an answer, so retransmissions of the request are ignored until the entry expires *)
+Definition recv_request_abort (w : world) (peer seq : N) (m : msg) (e : env) : res (world * list out) :=
+  match klookup (peer, seq) (w_rx w) with
+  | Some None => Ok (w, [])
+  | Some (Some p) => Ok (w, [OSend peer p true])
+  | None =>
+    let w0 := set_rx (kset (peer, seq) None (w_rx w)) w in
+    match m with
+    | MEst nid fseid o => handle_est_abort w0 nid fseid o e
+    | MMod seid nid o => handle_mod_abort w0 seid nid o e
     | _ => Ok (w0, [])
     end
   end.
@@ -888,6 +959,12 @@ Definition step (w : world) (ev : event) : res (world * list out) :=
   match ev with
   | EvRecv peer seq m e =>
     if is_request m then recv_request w peer seq m e else recv_response w peer seq m e
+  | EvRecvAbort peer seq m e =>
+    if is_request m then recv_request_abort w peer seq m e
+    else match klookup (peer, seq) (w_tx w) with        (* tx.recv has retired the transaction before the handler ran *)
+         | None => Ok (w, [])
+         | Some _ => Ok (set_tx (kdel (peer, seq) (w_tx w)) (w_txseq w) w, [])
+         end
   | EvReport seid items _ => serve_report w seid items
   | EvTimeoutTx peer seq => Ok (timeout_tx w peer seq)
   | EvTimeoutRx peer seq => Ok (set_rx (kdel (peer, seq) (w_rx w)) w, [])
